@@ -205,17 +205,13 @@ def vol_index_entries(F, S):
     ph = F.fn("OP2Utility::Archive::VolFile::PrepareHeader", nparams=2)
     out = []
     # the pushed entry: all fields but dataBlockOffset assigned before push_back
-    ent = None
-    for nd in ph.nodes:
-        if nd["k"] == "DeclStmt":
-            for d in nd.get("decls", []):
-                if (d.get("rec") or "").endswith("VolFile::IndexEntry") and not d.get("is_ref"):
-                    ent = ("var", d["n"], d["d"])
-    pb = [nd for nd in ph.nodes if nd["k"] == "CXXMemberCallExpr" and nd.get("fname") == "push_back" and ent and ph.term(nd["args"][0]) == ent]
-    if not ent or len(pb) != 1:
+    from ..through import entry_producer
+    ep = entry_producer(F, ph)
+    if ep is None:
         raise AnalysisBroken("PrepareHeader: IndexEntry local / push_back not found")
+    pb = [ep["push"]]
     rec = "OP2Utility::Archive::VolFile::IndexEntry"
-    d = local_defined(F, S, ph, ent, rec, pb[0]["id"])
+    d = local_defined(F, S, ep["host"], ep["ent"], rec, ep["use"])
     missing = set(leaves(F, rec)) - d
     inst = "OP2Utility::Archive::VolFile::PrepareHeader#entry-fields"
     if missing <= {("dataBlockOffset",)}:
@@ -553,7 +549,14 @@ def check(F, run, tier):
     run.floor("write-sites", n, 30)
     # parser / factory results
     k = 0
+    # the VOL index entry is completed after it is appended (dataBlockOffset; judged by vol_index_entries): a helper that builds
+    # it and hands it to PrepareHeader by value is that same partially filled record, not a parser result
+    from ..through import entry_producer
+    _ep = entry_producer(F, F.fn("OP2Utility::Archive::VolFile::PrepareHeader", nparams=2))
+    _skip = {_ep["host"].key} if _ep and _ep["subst"] else set()
     for fn in sorted(F.functions.values(), key=lambda f: f.key):
+        if fn.key in _skip:
+            continue
         if any(x in fn.file for x in READER_FILES) and fn.cfg and not fn.d.get("implicit"):
             o = returned_defined(F, S, fn)
             run.add(o)
